@@ -185,7 +185,7 @@ ApproveCancellation(S, m) ==
 
 (***************************************************************************)
 (* Execution-layer requests (inside the block message).                     *)
-(*  r = [withdraws: Seq [id, amount, price, addr, net, kind], rbf: Seq [id, price], cancel1: Seq id,
+(*  r = [withdraws: Seq [id, amount, price, addr, net, kind], rbf: Seq [id, price], cancel1: Seq id, *)
 (*       tax: Seq [rate, max], conf: Seq n, minDep: Seq n]                  *)
 (***************************************************************************)
 \* testnet3, signet and regtest share their base58 version bytes, testnet3 and signet their bech32 prefix: such
